@@ -36,6 +36,14 @@ class FalsyBoom(Boom):
         return 0
 
 
+class FrozenBoom(Boom):
+    """A legal exception object that refuses attribute assignment (like a @dataclass(frozen=True) exception):
+    the interpreter itself sets __traceback__ / __context__ through the C API, never through __setattr__."""
+
+    def __setattr__(self, name, value):
+        raise AttributeError(f"cannot assign to field {name!r}")
+
+
 class Runtime:
     """Shared by all bodies of one built program: call log, invocation counters,
     scripted decisions / failures, optional controller for async bodies."""
@@ -71,9 +79,10 @@ class Runtime:
     def _maybe_fail(self, path, idx, args=()):
         nd = self.nodes[path]
         if idx in nd["fail_at"] or any(IR.canon(v) in nd["fail_args"] for _, v in args):
-            # a third of the failures carry NO message (str(exc) == ""), like a bare KeyError() or a failed assert
-            k = (len(path) + idx) % 3 if self.silent_failures else 2
-            exc = Boom() if k == 0 else FalsyBoom(f"boom at {path}#{idx}") if k == 1 else Boom(f"boom at {path}#{idx}")
+            # a quarter of the failures carry NO message (str(exc) == ""), like a bare KeyError() or a failed assert
+            k = (len(path) + idx) % 4 if self.silent_failures else 2
+            exc = (Boom() if k == 0 else FalsyBoom(f"boom at {path}#{idx}") if k == 1 else FrozenBoom(f"boom at {path}#{idx}") if k == 3
+                   else Boom(f"boom at {path}#{idx}"))
             self.raised.append((path, idx, exc))
             raise exc
 
